@@ -2,7 +2,7 @@
 import core, suites, findings
 from core import World, parse_fs, Line
 from gen import Gen, mode_line, Call
-from suites import gen_history, run_suite, parse_snap, esc, snap_file_suffix, mutate_call
+from suites import gen_history, run_suite, parse_snap, parse_snap_scan, esc, unesc, has_cr_eol, snap_file_suffix, mutate_call
 
 LEAN_MODULES = ['GoSnaps.Props.C03', 'GoSnaps.Props.Tie.Path', 'GoSnaps.Props.Tie.Snapshot', 'GoSnaps.Props.Tie.SnapshotIO', 'GoSnaps.Props.Tie.Registry', 'GoSnaps.Props.Tie.Flows']
 
@@ -41,13 +41,43 @@ def make_spec(g, allow):
     # nesting: an execution may run completely *between two calls* of another one (a subtest between
     # two assertions of its parent, or parallel tests)
     nest = suites.gen_nest(r, execs, 0.35)
-    return dict(cfgs=h.cfgs, execs=execs, flags=set(h.flags), upd=r.choice(['', 'true']), nest=nest)
+    spec = dict(cfgs=h.cfgs, execs=execs, flags=set(h.flags), upd=r.choice(['', 'true']), nest=nest, crlf=None)
+    k = r.random()
+    if k < 0.15 and 'cr' not in spec['flags'] and 'big' not in allow:     # (the model is slow on `big` files: no second pass over them)
+        # at some point between two executions the files get CR LF (or mixed) line endings, as a
+        # checkout with core.autocrlf leaves them: slots are addressed and isolated as before (the
+        # entries are compared as the line scanner sees them)
+        spec['crlf'] = (r.choice(suites.CRLF_MODES), r.randint(0, len(execs)))
+        spec['flags'].add('crlf-file')
+    elif k < 0.30 and spec['upd'] == '' and execs:
+        # a test recording raw text with CR LF line endings (HTTP dump, CSV) somewhere in the file:
+        # its own entry is outside C01 (documented limitation), every OTHER slot behaves as before.
+        # (Not in update mode: a rewrite copies the file through the scanner, which is the same
+        # documented limitation.)
+        g2 = Gen(r.randrange(1 << 30))
+        calls = [(r.randint(1, len(h.cfgs)), Call('snap', g2.body((), ('cr', 'crlf')))) for _ in range(r.randint(1, 3))]
+        calls[0] = (calls[0][0], Call('snap', b'HTTP/1.1 200 OK\r\nContent-Type: text/plain\r\n\r\nhello'))
+        pos = r.randint(0, len(execs))
+        nest = {(i + 1 if i >= pos else i): ((hst + 1 if hst >= pos else hst), at) for i, (hst, at) in nest.items()}
+        execs.insert(pos, (b'TestCRHolder', calls))
+        if r.random() < 0.5:
+            execs.append((b'TestCRHolder', calls))
+        spec['nest'] = nest
+        spec['flags'].add('cr-value')
+    return spec
 
 
 def oracle(line, raw, w):
     """walk the whole world: after every call, the addressed file changed exactly as slot (N,k) says"""
     cfg_suffix = {}
     prev = {}
+    parse = parse_snap_scan if w.spec.get('crlf') else parse_snap
+
+    def first(entries, tid):
+        for i_, b_ in entries:
+            if i_ == tid:
+                return b_
+        return None
     ordinal = {}
     cur_name = None
     texec_name = {}
@@ -72,8 +102,8 @@ def oracle(line, raw, w):
             for p in set(dump) | set(prev):
                 if p not in path and dump.get(p) != prev.get(p):
                     return 'op %d: unrelated file %r changed' % (i, p)
-            before = parse_snap(prev.get(path[0], b'')) if path else []
-            after = parse_snap(dump.get(path[0], b'')) if path else []
+            before = parse(prev.get(path[0], b'')) if path else []
+            after = parse(dump.get(path[0], b'')) if path else []
             if before is None or after is None:
                 return 'op %d: file is not well formed after the call' % i
             kinds = [k for k, _ in res.events]
@@ -95,9 +125,24 @@ def oracle(line, raw, w):
                     return 'op %d: a passing/failing call changed the file' % i
                 if kinds == [] and want_id not in dict(before):
                     return 'op %d: call passed but slot %r does not exist' % (i, want_id)
+                if t[0] == 'snap' and len(t) > 3:
+                    # the call addresses slot (N, k): it passes iff THAT slot holds the value
+                    value = b'\n'.join(core.unhx(x) for x in t[3:])
+                    stored = first(before, want_id)
+                    if stored is None and kinds == ['E']:
+                        # (these worlds run off CI without Update(false): a missing slot is created)
+                        return 'op %d: call failed although its slot %r does not exist yet and creation is allowed: it addressed some other slot' % (i, want_id)
+                    if stored is not None and not has_cr_eol(value):
+                        same = unesc(stored) == unesc(esc(value))
+                        if kinds == [] and not same:
+                            return 'op %d: call passed although slot %r holds a different value' % (i, want_id)
+                        if kinds == ['E'] and same:
+                            return 'op %d: call failed although slot %r holds exactly this value' % (i, want_id)
             else:
                 return 'op %d: unexpected events %r' % (i, kinds)
             prev = dump
+        elif t[0] == 'fsdump' and i > 0 and w.ops[i - 1].startswith('fscrlf'):
+            prev = parse_fs(w.impl[i])      # the files as the checkout left them
     return None
 
 
@@ -110,6 +155,9 @@ def render(tag, spec):
         w.add(c)
     last = [None]
     nest = {i: v for i, v in spec.get('nest', {}).items() if i < len(spec['execs']) and v[0] < len(spec['execs'])}
+    # (structural shrinking drops executions and thereby shifts indices: a test never runs inside an
+    # execution of ITSELF, such a pairing is dropped)
+    nest = {i: v for i, v in nest.items() if spec['execs'][i][0] != spec['execs'][v[0]][0] and v[0] != i}
     hosted = {}
     for i, (host, pos) in nest.items():
         hosted.setdefault(host, []).append((pos, i))
@@ -129,13 +177,42 @@ def render(tag, spec):
             if pos >= len(calls):
                 emit(j)
         w.add('end %d' % texec)
+    crlf = spec.get('crlf')
+
+    def convert():
+        for op in suites.crlf_ops(spec['cfgs'], crlf[0]):
+            w.add(op)
+        w.add('fsdump')
+    done = 0
     for i in range(len(spec['execs'])):
         if i not in nest:
+            if crlf and done == crlf[1]:
+                convert()
+                crlf = None
             emit(i)
+            done += 1
     last = last[0]
     if last is not None:
         w.expect[last] = ('slot-addressing-and-isolation', oracle)
     return w
+
+
+def fixed_worlds():
+    """deterministic boundary cases for line endings: a raw CR LF text recorded earlier in the file
+    than the slots addressed afterwards; a file converted to CR LF / mixed endings between two
+    executions, then re-executed read-only and in update mode with one changed value"""
+    from gen import cfg_line
+    http = b'HTTP/1.1 200 OK\r\nContent-Type: text/plain\r\n\r\nhello'
+    beta = [(1, Call('snap', b'beta one')), (1, Call('snap', b'beta\ntwo\n')), (1, Call('snap', b'---\nthree'))]
+    beta2 = [(1, Call('snap', b'beta one')), (1, Call('snap', b'beta\ntwo CHANGED\n')), (1, Call('snap', b'---\nthree'))]
+    gamma = [(1, Call('snap', b'gamma')), (1, Call('snap', b''))]
+    worlds = [render('c03-cr-earlier', dict(cfgs=[cfg_line(1, 'snaps')], flags={'cr-value'}, upd='', nest={}, crlf=None,
+                                           execs=[(b'TestAlpha', [(1, Call('snap', http))]), (b'TestBeta', beta), (b'TestGamma', gamma), (b'TestBeta', beta), (b'TestGamma', gamma)]))]
+    for k, mode in enumerate(['all', 'odd', 'even']):
+        for upd in ('', 'true'):
+            worlds.append(render('c03-crlf-%s-%s' % (mode, upd or 'unset'), dict(cfgs=[cfg_line(1, 'snaps')], flags={'crlf-file'}, upd=upd, nest={}, crlf=(mode, 3),
+                                 execs=[(b'TestAlpha', [(1, Call('snap', b'alpha\nlines'))]), (b'TestBeta', beta), (b'TestGamma', gamma), (b'TestBeta', beta2), (b'TestGamma', gamma), (b'TestBeta', beta2), (b'TestNew', gamma)])))
+    return worlds
 
 
 def known(w, p):
@@ -151,6 +228,14 @@ def known(w, p):
 def run(ctx):
     g = Gen(ctx.seed * 1000003 + 3)
     n = 120 if ctx.tier == 'quick' else 3000
-    worlds = [render('c03-%d' % i, make_spec(g, ('shadow',) if g.r.random() < 0.08 else (('big',) if g.r.random() < 0.12 else ()))) for i in range(n)]
+    def allow_of():
+        if g.r.random() < 0.08:
+            return ('shadow',)
+        if g.r.random() < 0.12:
+            return ('big',)
+        # single lines around 4096 / 8192 bytes in entries next to the ones that are added / rewritten
+        return ('mid',) if g.r.random() < 0.10 else ()
+    worlds = [render('c03-%d' % i, make_spec(g, allow_of())) for i in range(n)]
+    worlds += fixed_worlds()
     run_suite(ctx, 'match.addressing', worlds, known=known, chunk=150)
     findings.report(ctx, 'C03')
